@@ -38,7 +38,14 @@ from fnmatch import fnmatch
 from typing import TYPE_CHECKING
 
 from .file import ensure_dir_exists
-from .index import Index, IndexEntry
+from .index import (
+    Index,
+    IndexEntry,
+    InvalidPathError,
+    get_path_element_validator,
+    validate_path,
+    verify_leading_dirs,
+)
 from .objects import Blob
 from .repo import Repo
 
@@ -211,9 +218,17 @@ def apply_included_paths(
     index.write()
 
     # 2) Reflect changes in the working tree
+    validate_path_element = get_path_element_validator(config)
+    repo_path_bytes = os.fsencode(repo.path)
     for path_bytes, entry in list(index.items()):
         if not isinstance(entry, IndexEntry):
             continue  # Skip conflicted entries
+        # Index keys come from trees unchecked (e.g. after a mixed reset), so
+        # apply the same checks as checkout before touching the file system:
+        # no unsafe path elements and no symlinked leading directory.
+        if not validate_path(path_bytes, validate_path_element):
+            raise InvalidPathError(path_bytes)
+        verify_leading_dirs(path_bytes, [], repo_path_bytes)
         full_path = os.path.join(repo.path, path_bytes.decode("utf-8"))
 
         if entry.skip_worktree:
